@@ -11,6 +11,7 @@ from typing import Callable
 
 from dateutil import parser
 from markupsafe import Markup
+from markupsafe import escape
 
 from liquid2.builtin import is_empty
 from liquid2.exceptions import LiquidTypeError
@@ -113,6 +114,11 @@ def date(  # noqa: PLR0912 PLR0911
         raise LiquidTypeError(str(err), token=None) from err
 
     if environment.auto_escape and isinstance(fmt, Markup):
+        # Every directive expands to digits or locale names, except for %Z. A time
+        # zone name is arbitrary text that arrives with the data.
+        tzname = dat.tzname() if isinstance(dat, datetime.datetime) else None
+        if tzname and escape(tzname) != tzname:
+            return rv
         return Markup(rv)
     return rv
 
